@@ -6,9 +6,11 @@
    keystore JSON, the error values and the signatures as terms of a Dolev–Yao algebra
    (Atom secret | Pub | Enc key t | Hash t | Kdf pass salt | Cat); Keys/Secrecy.v defines what an
    attacker derives from a set of terms and the histories (create, new address, sign, refused
-   attempts, export, import of keystore / mnemonic, public-passphrase change, restart, removal)
-   that accumulate everything ever written or returned. The symbolic-crypto assumptions are the
-   algebra itself: Enc opens only with its key, Hash / Kdf are one-way and free.
+   attempts, export, import of keystore / mnemonic, public-passphrase change, restart, removal,
+   reveal, selection — and [SEnvFail o ...]: any of these FAILING with an error of the chain
+   look-up, of another chain read or of the wallet database) that accumulate everything ever
+   written or returned. The symbolic-crypto assumptions are the algebra itself: Enc opens only
+   with its key, Hash / Kdf are one-way and free.
    Part 2 (unlock machine, Keys/Unlock.v): the gate, the frame of refusals, and the fate of the
    wrong key a failed scrypt check leaves in masterKeyPriv.
    Part 3 (keystore manager, Keys/Manager.v): several keystores in one KeystoreManager and the
@@ -26,7 +28,12 @@ Open Scope Z_scope.
 (* After ANY history, no secret of any wallet that ever existed — entropy (= mnemonic words),
    private passphrase, seed, BIP-32 root, account and branch extended private keys, per-address
    private keys, the random crypto keys, the scrypt master key — is derivable from all rows ever
-   written, all exported keystores, all error values, all signatures and every public passphrase *)
+   written, all exported keystores, all error values, all signatures and every public passphrase.
+   The histories contain environment failures at any step ([SEnvFail o f site ctx env]: operation
+   [o] failed on the chain look-up / a chain read / the wallet database; its error value carries a
+   constant text, ANY public context and ANY error text of the environment; the attacker is given
+   everything the completed operation would have stored or returned on top of it), and [w_secret]
+   also lists the secrets of wallets whose creation or import failed (C05_failed_attempt_secrets) *)
 Theorem C05_no_plain_secret : forall ops s,
   In s (w_secret (srun init_world ops)) -> ~ derivable (knows (srun init_world ops)) s.
 Proof. exact no_plain_secret. Qed.
@@ -36,6 +43,43 @@ Theorem C05_no_plain_secret_live : forall ops k s,
   In k (w_insts (srun init_world ops)) -> In s (secrets k) ->
   ~ derivable (knows (srun init_world ops)) s.
 Proof. exact no_plain_secret_live. Qed.
+
+(* a failed operation is rolled back (no new instance), the secrets it brought into being — the
+   mnemonic and the passphrase of a wallet whose import or creation failed, held by NO instance —
+   are among the secrets of C05_no_plain_secret, and the error value itself is public whatever the
+   failing site, the public context and the environment's error text are *)
+Theorem C05_failed_attempt_secrets : forall wd f site ctx env,
+  (forall w coin el addrs,
+     let wd' := sstep wd (SEnvFail (SImportMnemonic w coin el addrs) f site ctx env) in
+     In (t_entropy w) (w_secret wd') /\ In (t_privpass w) (w_secret wd') /\ In (t_seed w) (w_secret wd') /\
+     w_insts wd' = w_insts wd) /\
+  (forall w coin el rl,
+     let wd' := sstep wd (SEnvFail (SCreate w coin el rl) f site ctx env) in
+     In (t_entropy w) (w_secret wd') /\ In (t_privpass w) (w_secret wd') /\ w_insts wd' = w_insts wd) /\
+  (forall o, w_insts (sstep wd (SEnvFail o f site ctx env)) = w_insts wd /\
+             w_secret (sstep wd (SEnvFail o f site ctx env)) = w_secret (sstep wd o) /\
+             knows (sstep wd (SEnvFail o f site ctx env)) (env_error_term site ctx env) /\
+             okb (env_error_term site ctx env) = true).
+Proof.
+  exact (fun wd f site ctx env =>
+    conj (fun w coin el addrs => failed_import_secrets_listed wd w coin el addrs f site ctx env)
+   (conj (fun w coin el rl => failed_create_secrets_listed wd w coin el rl f site ctx env)
+         (fun o => conj (env_fail_rolls_back wd o f site ctx env)
+                  (conj (env_fail_keeps_attempted_secrets wd o f site ctx env)
+                        (env_fail_error_known wd o f site ctx env))))).
+Qed.
+
+(* the seeded regression ([pfix] = false: the error of a failed operation carries the operation's
+   parameter record, as a "%v" of the WalletParams VALUE does): the mnemonic import whose chain
+   look-up fails leaves no instance, and its error hands out the entropy (= the sentence) and the
+   private passphrase; with the code as it is the same history gives the attacker public terms only *)
+Theorem C05_error_carrying_parameters_refuted :
+  let wd := srun_gen false init_world leak_history in
+  w_insts wd = [] /\
+  In (t_entropy 0) (w_secret wd) /\ derivable (knows wd) (t_entropy 0) /\
+  In (t_privpass 0) (w_secret wd) /\ derivable (knows wd) (t_privpass 0) /\
+  forallb okb (w_known (srun init_world leak_history)) = true.
+Proof. exact error_carrying_parameters_refuted. Qed.
 
 (* the argument: "the attacker may know it" is closed under derivation *)
 Theorem C05_derivation_sound : forall (K : term -> Prop),
@@ -363,6 +407,8 @@ Proof. exact clear_in_use_only_refuted. Qed.
 
 Print Assumptions C05_no_plain_secret.
 Print Assumptions C05_no_plain_secret_live.
+Print Assumptions C05_failed_attempt_secrets.
+Print Assumptions C05_error_carrying_parameters_refuted.
 Print Assumptions C05_derivation_sound.
 Print Assumptions C05_rows.
 Print Assumptions C05_gate.
@@ -403,6 +449,27 @@ Example C05_ex_history :
   length (w_insts wd) = 3%nat /\ length (w_secret wd) = 36%nat /\
   forallb okb (w_known wd) = true /\ existsb okb (w_secret wd) = false.
 Proof. vm_compute. repeat split; reflexivity. Qed.
+
+(* ... also when operations fail on the environment in between (a failed creation, a failed mnemonic
+   import on the chain look-up, a failed keystore import, export, signature, reveal, selection,
+   passphrase change, removal and restart on the wallet database or a chain read): three instances
+   again, MORE secrets (those of the two wallets that never came into being), nothing leaked *)
+Example C05_ex_history_with_failures :
+  let wd := srun init_world
+     [SCreate 0 297 16 3; SEnvFail (SCreate 5 297 32 0) FStorage 13 [[1]] [100; 98];
+      SNewAddr 0 (0, 0); SEnvFail (SNewAddr 0 (0, 1)) FStorage 2 [[101; 120]] [100];
+      SSign 0 (0, 0) [1]; SEnvFail (SSign 0 (0, 0) [2]) FChainFetch 3 [] [99]; SRefused 7;
+      SExport 0; SEnvFail (SExport 0) FStorage 9 [] [100]; SEnvFail (SReveal 0) FStorage 3 [] [100];
+      SEnvFail (SUse 0) FStorage 4 [] [100];
+      SImportKeystore 0; SEnvFail (SImportKeystore 0) FChainLookup 1 [] [99];
+      SEnvFail SChangePub FStorage 7 [] [100]; SChangePub; SEnvFail SRestart FChainFetch 2 [] [99]; SRestart;
+      SEnvFail (SImportMnemonic 6 297 24 [(0, 0); (1, 0)]) FChainLookup 12 [] [99];
+      SEnvFail (SRemove 0) FStorage 10 [] [100];
+      SImportMnemonic 1 297 32 [(0, 0)]] in
+  length (w_insts wd) = 3%nat /\ (length (w_secret wd) > 36)%nat /\
+  In (t_entropy 5) (w_secret wd) /\ In (t_entropy 6) (w_secret wd) /\
+  forallb okb (w_known wd) = true /\ existsb okb (w_secret wd) = false.
+Proof. vm_compute. repeat split; try reflexivity; try tauto. repeat constructor. Qed.
 
 (* ... and the manager theorems are about histories that do sign: with the code as it is the two
    histories of C05_manager_clear_in_use_only_refuted return their signature and end with every
